@@ -39,7 +39,7 @@ class Hub(object):
         # Dictionary of subscriptions
         self._subscriptions = WeakKeyDictionary()
 
-        self._paused = False
+        self._paused = 0
         self._queue = []
 
         self._ignore = Counter()
@@ -199,15 +199,16 @@ class Hub(object):
 
     @contextmanager
     def delay_callbacks(self):
-        self._paused = True
+        self._paused += 1
         try:
             yield
         finally:
-            self._paused = False
-            # TODO: could de-duplicate messages here
-            for message in self._queue:
-                self.broadcast(message)
-            self._queue = []
+            self._paused -= 1
+            if self._paused == 0:
+                # TODO: could de-duplicate messages here
+                queue, self._queue = self._queue, []
+                for message in queue:
+                    self.broadcast(message)
 
     def broadcast(self, message):
         """Broadcasts a message to all subscribed objects.
